@@ -75,7 +75,10 @@ class Clock:
     def sleep(self, t):
         self.sleeps += 1
 
-    gmtime = staticmethod(_time.gmtime)
+    @staticmethod
+    def gmtime(when=None):
+        # the clock value may be symbolic (C18); the Date header content is not under test
+        return _time.gmtime(1700000000 if not isinstance(when, (int, float)) else when)
     strftime = staticmethod(_time.strftime)
     monotonic = time
 
